@@ -48,7 +48,7 @@ def _used_names(node):
 def _has_return_in_loop(stmts):
     for st in stmts:
         for n in ast.walk(st):
-            if isinstance(n, (ast.For, ast.While, ast.AsyncFor, ast.Try, ast.With)):
+            if isinstance(n, (ast.For, ast.While, ast.AsyncFor, ast.Try)):
                 for m in ast.walk(n):
                     if isinstance(m, ast.Return) and m is not n:
                         # a return inside a nested function definition does not count
@@ -64,6 +64,8 @@ def _ends_in_return(stmts):
         return True
     if isinstance(last, ast.If):
         return _ends_in_return(last.body) and _ends_in_return(last.orelse)
+    if isinstance(last, (ast.With, ast.AsyncWith)):
+        return _ends_in_return(last.body)
     return False
 
 
@@ -101,6 +103,10 @@ def _map_returns(stmts, fn):
             st = copy.copy(st)
             st.body = _map_returns(st.body, fn)
             st.orelse = _map_returns(st.orelse, fn)
+            out.append(st)
+        elif isinstance(st, (ast.With, ast.AsyncWith)):
+            st = copy.copy(st)
+            st.body = _map_returns(st.body, fn)
             out.append(st)
         else:
             out.append(st)
@@ -351,6 +357,17 @@ def simplify(stmts, nonnull):
         if isinstance(st, ast.Assign) and len(st.targets) == 1 and isinstance(st.targets[0], ast.Name):
             nm = st.targets[0].id
             reads = [x for x in ast.walk(st.value) if isinstance(x, ast.Name) and x.id == nm]
+            if not reads:
+                # dead store: an earlier plain `nm = <constant>` in this list that nothing reads before this re-definition
+                j = len(res) - 1
+                while j >= 0:
+                    pj = res[j]
+                    if isinstance(pj, ast.Assign) and len(pj.targets) == 1 and isinstance(pj.targets[0], ast.Name) and pj.targets[0].id == nm and isinstance(pj.value, ast.Constant):
+                        del res[j]
+                        break
+                    if nm in _used_names(pj) or not isinstance(pj, (ast.Assign, ast.Expr)):
+                        break
+                    j -= 1
             if reads:
                 # previous definition of nm in this list, with nothing in between touching nm
                 j = len(res) - 1
